@@ -59,6 +59,10 @@ pub(crate) struct State {
 
     #[cfg(debug_assertions)]
     pub(crate) only_in_debug: OnlyInDebug,
+
+    /// verification hook: every node ever created, in creation order
+    #[cfg(cormacrelf_incremental_rs_verif)]
+    pub(crate) verif_registry: RefCell<Vec<WeakNode>>,
 }
 
 impl Debug for State {
@@ -149,6 +153,8 @@ impl State {
             weak_maps: RefCell::new(vec![]),
             #[cfg(debug_assertions)]
             only_in_debug: OnlyInDebug::default(),
+            #[cfg(cormacrelf_incremental_rs_verif)]
+            verif_registry: RefCell::new(vec![]),
         })
     }
 
